@@ -17,7 +17,7 @@ import XrsVerif.Model.Focal
     stops with an out-of-range read of `kernel`.
 -/
 namespace XrsVerif.Focal
-open XrsVerif XrsVerif.IL
+open XrsVerif XrsVerif.IL XrsVerif.IL.Sd
 set_option linter.unusedSectionVars false
 set_option linter.unusedSimpArgs false
 variable {F : Type} [Fl F]
